@@ -155,6 +155,8 @@ def catalogue_c18(tier):
     cs = []
     for nm, script in [('2items-complete', items(1, 2) + [E(1, 'c')]), ('empty-complete', [E(1, 'c')]), ('item-error', items(1, 1) + [E(1, 'e', 5)]), ('3items-complete', items(1, 3) + [E(1, 'c')])]:
         cs.append(case('c18/' + nm, S(1), [[{'op': 'tovec_wait'}], script], pre=[{'op': 'tovec_start'}], tags=['tovec']))
+    cs.append(case('c18/fresh-wakers', S(1), [[{'op': 'tovec_wait2'}], items(1, 2) + [E(1, 'c')]], pre=[{'op': 'tovec_start'}], tags=['tovec']))
+    cs.append(case('c18/fresh-wakers-error', S(1), [[{'op': 'tovec_wait2'}], items(1, 1) + [E(1, 'e', 5)]], pre=[{'op': 'tovec_start'}], tags=['tovec']))
     cs.append(case('c18/through-map', T('map', 0, 'inc', ins=[S(1)]), [[{'op': 'tovec_wait'}], items(1, 2) + [E(1, 'c')]], pre=[{'op': 'tovec_start'}], tags=['tovec']))
     return cs
 
@@ -171,6 +173,10 @@ def catalogue_c09(tier):
         if nm in ('direct', 'stacked') or tier == 'thorough':
             cs.append(case('c09/observe_on-%s/silent' % nm, root, [items(1, 2)], tags=['observe_on']))
             cs.append(case('c09/observe_on-%s/unsub' % nm, root, [items(1, 3), [UNSUB1]], tags=['observe_on']))
+    # a source that stays silent for a long (virtual) time between two events, and the same observable subscribed twice
+    cs.append(case('c09/observe_on-direct/long-gap', oo(S(1)), [[E(1, 'n', 11), SL(2500), E(1, 'n', 12), SL(4000), E(1, 'c')]], tags=['observe_on']))
+    cold3 = oo(T('from_iter', items=[1, 2, 3]))
+    cs.append(case('c09/observe_on-cold/twice', cold3, [[SL(100), {'op': 'sub', 'u': 2}, SL(100)]], tags=['observe_on', 'cold3']))
     so = T('subscribe_on', ins=[T('from_iter', items=[1, 2, 3])])
     cs.append(case('c09/subscribe_on/cold', so, [], tags=['subscribe_on', 'cold3']))
     cs.append(case('c09/subscribe_on/cold-map', T('map', 0, 'inc', ins=[so]), [], tags=['subscribe_on', 'cold3']))
@@ -195,6 +201,8 @@ def catalogue_c15(tier):
           timed(case('c15/observe_on-error', T('observe_on', ins=[S(1)]), [items(1, 1) + [E(1, 'e', 5)]], tags=W), 100),
           timed(case('c15/observe_on-unsub', T('observe_on', ins=[S(1)]), [items(1, 2) + [UNSUB1]], tags=W), 100),
           timed(case('c15/observe_on-take1', T('take', 1, ins=[T('observe_on', ins=[S(1)])]), [items(1, 2)], tags=W), 100),
+          timed(case('c15/interval_sync-take2-observe_on', T('observe_on', ins=[T('take', 2, ins=[T('interval_sync', 20)])]), [[SL(300)]], tags=W), 100),
+          timed(case('c15/observe_on-idle-unsub', T('observe_on', ins=[S(1)]), [[E(1, 'n', 11), SL(50), UNSUB1, SL(300)]], tags=W), 100),
           timed(case('c15/subscribe_on-cold', T('subscribe_on', ins=[T('from_iter', items=[1, 2, 3])]), [[SL(100)]], tags=W), 100),
           timed(case('c15/subscribe_on-never-unsub', T('subscribe_on', ins=[T('never')]), [[SL(10), UNSUB1, SL(300)]], tags=W), 100),
           timed(case('c15/debounce-complete', T('debounce', 100, ins=[S(1)]), [[E(1, 'n', 11), SL(150), E(1, 'c'), SL(400)]], tags=W), 100),
@@ -222,6 +230,7 @@ def catalogue_c16(tier):
                timed(case('c16/timeout-%d-quiet' % d, T('timeout', d, ins=[S(1)]), [[E(1, 'n', 11), SL(40), E(1, 'n', 12), SL(40), E(1, 'c'), SL(300)]], tags=['timeout']), d),
                timed(case('c16/timeout-%d-nothing-before-first' % d, T('timeout', d, ins=[S(1)]), [[SL(260), E(1, 'n', 11), SL(40), E(1, 'c'), SL(300)]], tags=['timeout']), d),
                timed(case('c16/timeout-%d-gap-after-first' % d, T('timeout', d, ins=[S(1)]), [[E(1, 'n', 11), SL(260), E(1, 'n', 12)]], tags=['timeout']), d),
+               timed(dict(case('c16/timeout-%d-slow-consumer' % d, T('timeout', 4 * d, ins=[S(1)]), [[E(1, 'n', 11), SL(150), E(1, 'n', 12), E(1, 'c'), SL(3000)]], tags=['timeout-slow']), slow_item=12, slow_ms=8 * d), 4 * d),
                timed(case('c16/debounce-%d' % d, T('debounce', d, ins=[S(1)]), [[E(1, 'n', 11), SL(40), E(1, 'n', 12), SL(260), E(1, 'n', 13), SL(110), E(1, 'c'), SL(300)]], tags=['subset']), d),
                timed(case('c16/sample-%d' % d, T('sample', ins=[S(1), S(2)]), [[E(1, 'n', 11), SL(40), E(1, 'n', 12), SL(90), E(1, 'n', 13), SL(110), E(1, 'c')], [SL(90), E(2, 'n', 0), SL(110), E(2, 'n', 0), SL(40), E(2, 'n', 0)]], tags=['subset']), d)]
     return cs
